@@ -95,6 +95,7 @@ def descr_list(gs):
 def trace_obligations(ctx):
     G = qgates.gates_module()
     tab = gen.Table(PROP)
+    tab.emit_single = True
     S.plan = qgates.assume_in_range_plan
     raised = []
     std = std_table()
@@ -184,7 +185,21 @@ def trace_obligations(ctx):
                     raised.append((f"grbs_{lab}", "GeneralizedRBS", e))
     finally:
         S.plan = None
+    # end to end (generated, because the class list is read from the source): a circuit built
+    # from instances of the classes whose decomposition obligation holds equals its decomposed
+    # circuit up to one unit-modulus scalar — QV.Props.C08.T08_decompose_of_classes
+    tab.class_table("C08_classes", "QV.Ob.SingleStmt",
+                    [(n, f"{n}_single") for n, _, m in tab.obs if m.get("run") and n.startswith(("C08_dec_", "C08_tab_", "C08_cur_", "C08_grbs_"))])
+    tab.corollary(
+        "C08_decompose_circuit",
+        "∀ (is : List QV.Props.C05.Inst),\n"
+        "    (∀ i ∈ is, i.o ∈ C08_classes ∧ (∀ q, i.σ (i.τ q) = q) ∧ (∀ q, i.τ (i.σ q) = q)) →\n"
+        "    ∃ c : ℂ, ‖c‖ = 1 ∧ ∀ (ψ : Lab → ℂ) (x : Lab),\n"
+        "      runCircuit (is.flatMap QV.Props.C08.decInst) ψ x = c * runCircuit (is.map QV.Props.C08.refInst) ψ x",
+        "QV.Props.C08.T08_decompose_of_classes C08_classes C08_classes_ok",
+        needs=["C08_classes_ok"], imports=["QV.Props.C08c"])
     status, passed = tab.emit()
+    ctx.stats["classes_in_generated_decompose_circuit"] = len([c for c in tab.cor_names if c.endswith("_single") and c.startswith(("C08_dec_", "C08_tab_", "C08_cur_", "C08_grbs_"))])
     for name, expr, meta in tab.obs:
         ok, sup = status.get(name, (False, False))
         ctx.ob(name, ok, "generated-kernel", "" if ok else ("outside the symbolic fragment" if not sup else "stage-1 evaluation is false"))
